@@ -151,6 +151,8 @@ def c_pair(ctx, case):
             ctx.count(f"proto:{ev['proto']}")
             ctx.count("kind:" + r["kind"])
             ctx.count("hash_first" if ev["hash_first"] else "hash_after")
+            if ev.get("first_hash_failed"):
+                ctx.count("consumer_first_hash_failed_and_caught")
             if isinstance(ev["hash_first"], str):
                 ctx.count("key_before_pickling")
             if "hash" in ev:
@@ -205,4 +207,5 @@ def workload(ctx):
     ctx.floor("kind:compiled", 100)
     ctx.floor("kind:deepexpr", 100)
     ctx.floor("key_before_pickling", 1000)
+    ctx.floor("consumer_first_hash_failed_and_caught", 20)
     ctx.floor("recipes_whose_hash_differs_between_the_two_processes", 200)
